@@ -32,32 +32,32 @@ from ..lib.impl import Raised, call
 LEVEL = "proof"
 CLAIM = dict(
     category="proof",
-    text="Status part: Lean theorems about a step-function model of the two _solve loops whose try body is the list of statements "
-    "in source order EXTRACTED FROM THE AST on every check (label of each call: assembling, regularisation update, inner linear solve, "
-    "shrink, Anderson mixing, distance evaluation, history/timings, stopping criteria, commit; effect on the returned iterate / "
-    "distance; what the handler restores; how converged, the distance and the loop variable are initialised). For EVERY event "
-    "sequence (ok criteriaMet | fail at ANY statement of ANY body | nan at each pass) and EVERY num_iter: converged => the last "
-    "executed pass completed with the stopping criteria met (iter > 1) and all earlier passes completed; reported distance = cost "
-    "of exactly the returned iterate; a fault at any statement of any reached pass => converged = False, number_iterations = that "
-    "pass, solution and distance = last valid iterate (fault_point_irrelevant); status defined also for num_iter = 0. The soundness "
-    "of the extracted shape is a decide obligation; the negations for the code as found are proved with witnesses (there the program "
-    "point WAS observable). Algebraic part (any field, any finite grid, abstract divergence D with 1^T D = 0, any weights): second "
-    "block row => multiplier 0 and D u = f; invariance under any number of Newton updates; Anderson mixing / affine combinations "
-    "preserve the balance; pressure pinned. Tie: fault-injection correspondence of the real solvers at NINE program points (jacobian "
-    "assembly, regularisation update, inner linear solve, solver setup on first use, shrink, Anderson call, l1_dissipation, timing "
-    "bookkeeping after the distance update, evaluation of the stopping criteria) by wrapping attributes of the live solver object / "
-    "a raising tolerance object (no source hook) against the model's prediction, and a per-run oracle (mass balance to linear-solver "
-    "precision, distance == l1_dissipation(returned flux), aux outputs recomputed from the captured flat solution, honest status). "
-    "Auxiliary outputs: WAux.callOut models the output assembly of __call__ on the finite-volume model of C05/C06 (face_to_cell at the "
-    "cell centre, cell weighting, order-F pressure reshape, transport density, distance); aux_from_solution / "
-    "aux_flux_outputs_from_flux_dofs / aux_pressure_reshape / aux_distance_is_integral_of_density prove that they are functions of "
-    "the returned flat solution only (flux-type outputs of the flux dofs, pressure of the pressure dofs, pinned cell at decF k); tied "
-    "by a correspondence in which _solve of a live solver is stubbed with a dyadic flat solution: cell flux, weighted flux and "
-    "pressure equal the model exactly, the transport density equals sum_q w_q sqrt(model's rational squared norm) to 64 eps.",
-    note="1^T D = 0 for the concrete FV divergence is property C06/C07 (here a hypothesis and, per run, a measured fact); linear-solver "
-    "accuracy and the Euclidean norm in the cost are evaluated in float; after a fault in the bookkeeping of a pass the "
-    "convergence_history keeps the entry of the failed pass (not judged).",
-    technique="Lean 4 proofs (invariant over the loop model; Finset algebra) + AST extraction (G2) + fault-injection correspondence + oracle",
+    text="PROVED (Lean). Status: a step-function model of the two _solve loops whose try bodies are statement lists in source order "
+    "EXTRACTED FROM THE AST on every check (label and effect of each statement on the returned iterate / distance; what the handler "
+    "restores and whether from a copy or an alias of an in-place-updated iterate; how converged, the distance and the loop variable are "
+    "initialised). The tags of a completed pass are DERIVED from the body (iterate written; distance evaluated after the last write), so "
+    "the generated obligation code_is_sound fails when the statement order or the copy changes (order_and_copy_matter). For every event "
+    "sequence (ok | fail at any statement of any body | nan) and every num_iter: converged_sound, distance_is_cost_of_returned_flux, "
+    "fault_flags_nonconverged, fault_returns_last_valid_iterate, fault_point_irrelevant, converged_total; witnesses for the code as found. "
+    "Mass balance (any field, abstract D with 1^T D = 0): lambda_zero, mass_balance_of_solution, newton_preserves_balance, "
+    "affine/anderson_preserves_balance, bregman_flux_balanced, pressure pinned; anderson_run_preserves_balance for the accelerator AS "
+    "CODED (DarsiaModel.Anderson: reset, history columns, column index, restart, mixing; least squares = arbitrary parameter). Outputs: "
+    "WAux.callOut on the FV model of C05/C06; aux_from_solution / aux_flux_outputs_from_flux_dofs (congruences: outputs depend on the "
+    "returned dofs only), aux_pressure_reshape, aux_distance_is_integral_of_density (value statements); nan_not_converged and "
+    "aux_weighted_flux are definitional unfoldings. TIED BY CORRESPONDENCE: fault injection at nine program points of the real solvers "
+    "(converged, number_iterations, distance tag, returned iterate vs the model on the reconstructed event sequence); the real "
+    "AndersonAcceleration on dyadic vectors with a stubbed lstsq vs the model (exact); __call__ outputs with a stubbed _solve vs "
+    "callOut (exact / 64 eps); generated program points and as-found witnesses through the driver. ORACLE per run: mass balance to "
+    "linear-solver precision, distance == l1_dissipation(returned flux), aux outputs, pinned pressure, converged => criteria met (distance "
+    "increments recomputed from the reported distances; residual / flux increments are read from the history the solver wrote) and no fault.",
+    note="Not tied to a model: that jacobian / residual / _update_regularization assemble the second block row D u - c^T lambda = f (hypothesis "
+    "of newton_preserves_balance; only darcy_init is tied, in C08) - covered by the per-run mass-balance oracle. The model accepts a nan "
+    "event for Newton although Newton has no NaN branch (harmless: theorems quantify over more). 1^T D = 0 is C06. same_iterate compares "
+    "iterates to 1e-9 and cannot tell stationary iterates apart (then any of them is the last valid one). After a fault in the bookkeeping "
+    "of a pass the convergence_history keeps the entry of the failed pass (not judged). KNOWN FINDINGS: Anderson with a numerically "
+    "rank-deficient least-squares problem (stagnating iteration; detected by a recording wrapper, carried in the signature) breaks the "
+    "mass balance / pressure in float although the algebra preserves it; Bregman's NaN pressure marker after a failed post-processing solve.",
+    technique="Lean 4 proofs (invariant over the loop model; Finset / sumTo algebra) + AST extraction (G2) + fault-injection correspondence + oracle",
 )
 
 EPS = float(np.finfo(float).eps)
@@ -154,7 +154,7 @@ def _bodies(stmts, it, tracked):
 
 def extract_code(cls):
     """AST of cls._solve -> dict(bodies, restoreSol, restoreDist, flagOnBreak, distInit, iterInit, why)"""
-    code = dict(bodies=[], restoreSol=False, restoreDist=False, flagOnBreak=False, distInit=False, iterInit=False, why=[])
+    code = dict(bodies=[], restoreSol=False, restoreDist=False, flagOnBreak=False, distInit=False, iterInit=False, saveIsCopy=False, why=[])
     try:
         fn = ast.parse(textwrap.dedent(inspect.getsource(cls._solve))).body[0]
     except (OSError, TypeError, SyntaxError, IndexError) as e:
@@ -214,6 +214,35 @@ def extract_code(cls):
 
     code["restoreSol"] = restored(tracked)
     code["restoreDist"] = restored("new_distance")
+    # copy vs alias: if the body writes the iterate IN PLACE (augmented assignment or assignment through a subscript), what the
+    # handler restores from must have been bound to a copy (`x.copy()`, `np.copy(x)`, `np.array(x)`); a mere re-binding of the
+    # name in the body leaves an alias intact
+    in_place = False
+    for n in ast.walk(tr):
+        if isinstance(n, ast.AugAssign):
+            tgt = n.target
+            while isinstance(tgt, ast.Subscript):
+                tgt = tgt.value
+            in_place |= isinstance(tgt, ast.Name) and tgt.id == tracked
+        elif isinstance(n, ast.Assign):
+            for t in n.targets:
+                for e in (t.elts if isinstance(t, ast.Tuple) else [t]):
+                    if isinstance(e, ast.Subscript):
+                        while isinstance(e, ast.Subscript):
+                            e = e.value
+                        in_place |= isinstance(e, ast.Name) and e.id == tracked
+    is_copy = False
+    if code["restoreSol"]:
+        src_name = h_assign[tracked].value.id
+        saves = [n for name, n in _names_assigned(before_try) if name == src_name and isinstance(n, ast.Assign)] or \
+                [n for name, n in _names_assigned(pre) if name == src_name and isinstance(n, ast.Assign)]
+        if saves:
+            v = saves[-1].value
+            is_copy = isinstance(v, ast.Call) and isinstance(v.func, ast.Attribute) and v.func.attr in ("copy", "array", "deepcopy")
+    code["saveIsCopy"] = bool(code["restoreSol"] and (is_copy or not in_place))
+    code["in_place"], code["save_is_copy_call"] = in_place, is_copy
+    if not code["saveIsCopy"]:
+        code["why"].append(f"{tracked} is updated in place but the handler restores it from an alias, not a copy")
     if not code["restoreSol"]:
         code["why"].append(f"handler does not restore {tracked}")
     if not code["restoreDist"]:
@@ -232,7 +261,7 @@ def _lean_code(code) -> str:
     bodies = ",\n     ".join("[" + ", ".join(f"⟨.{l}, .{e}⟩" for l, e in b) + "]" for b in code["bodies"])
     fl = lambda k: "true" if code[k] else "false"
     return ("{ bodies := [" + bodies + "],\n    restoreSol := " + fl("restoreSol") + ", restoreDist := " + fl("restoreDist") +
-            ", flagOnBreak := " + fl("flagOnBreak") + ", distInit := " + fl("distInit") + ", iterInit := " + fl("iterInit") + " }")
+            ", flagOnBreak := " + fl("flagOnBreak") + ", distInit := " + fl("distInit") + ", iterInit := " + fl("iterInit") + ", saveIsCopy := " + fl("saveIsCopy") + " }")
 
 
 def emit(codes) -> str:
@@ -328,6 +357,24 @@ class RaisingCallable:
         return self.inner(*a, **k)
 
 
+class RecordingAnderson:
+    """pass-through wrapper of the live Anderson object: notes whether the least-squares problem it solves is numerically
+    rank-deficient, i.e. a column `fk - fkm1` of its history is rounding noise relative to the iterate (stagnating fixed-point
+    iteration) - the situation of the recorded Anderson finding"""
+
+    def __init__(self, inner):
+        self.inner, self.prev_f, self.degenerate = inner, None, False
+
+    def __call__(self, gk, fk, iteration):
+        g, f = np.asarray(gk, dtype=float), np.asarray(fk, dtype=float)
+        if self.prev_f is not None and iteration > 0 and self.prev_f.shape == f.shape:
+            scale = max(float(np.abs(g).max()) if g.size else 0.0, 1e-300)
+            if float(np.abs(f - self.prev_f).max() if f.size else 0.0) <= 1e-9 * scale:
+                self.degenerate = True
+        self.prev_f = f.copy()
+        return self.inner(gk, fk, iteration)
+
+
 class FaultyTol(float):
     """a tolerance whose use in the stopping criteria (`tol * history[0]`) raises at the `at`-th evaluation"""
 
@@ -396,6 +443,10 @@ def run_solver(d, cfg, fault=None, num_iter=None):
 
         w._solve = solve
         cap["cost"] = w.l1_dissipation  # the unwrapped method, for the oracle
+        rec_aa = None
+        if w.anderson is not None:
+            rec_aa = RecordingAnderson(w.anderson)
+            w.anderson = rec_aa
         if fault is not None:
             inj = injection(cfg, fault[0], fault[1])
             if inj is None:
@@ -413,6 +464,7 @@ def run_solver(d, cfg, fault=None, num_iter=None):
         cap["warned"] = any("abruptly stopped" in str(x.message) for x in rec)
         cap["pp_failed"] = any("Pressure post-processing failed" in str(x.message) for x in rec)
         cap["w"], cap["out"], cap["opts"] = w, out, opts
+        cap["aa_degenerate"] = bool(rec_aa is not None and rec_aa.degenerate)
         # magnitude of the integrated masses: the source f = M (m2 - m1) carries a rounding error of eps times this
         cap["mass_scale"] = float(max(np.abs(w.mass_matrix_cells @ np.ravel(np.abs(i1.img), "F")).max(),
                                       np.abs(w.mass_matrix_cells @ np.ravel(np.abs(i2.img), "F")).max()))
@@ -433,11 +485,16 @@ def criteria_met_at(cfg, hist, i):
     tr, ti, td = tols(cfg)
     with np.errstate(all="ignore"):
         try:
+            # the distance increment is recomputed from the reported distances (not read back from the stored increments);
+            # pass 0 compares with the initial iterate, whose distance is not part of the history: stored value used there
+            dinc = abs(hist["distance"][i] - hist["distance"][i - 1]) if i >= 1 else hist["distance_increment"][i]
+            if i >= 1 and not abs(dinc - hist["distance_increment"][i]) <= 1e-12 * max(abs(hist["distance"][i]), 1e-300):
+                return False  # the stored increment does not belong to the reported distances
             if cfg.method == "newton":
                 return bool(hist["residual"][i] < tr * hist["residual"][0] and hist["flux_increment"][i] < ti * hist["flux_increment"][0]
-                            and hist["distance_increment"][i] < td)
+                            and dinc < td)
             return bool(hist["aux_force_increment"][i] < ti * hist["aux_force_increment"][0]
-                        and hist["distance_increment"][i] / hist["distance"][i] < td and hist["mass_conservation_residual"][i] < tr)
+                        and dinc / hist["distance"][i] < td and hist["mass_conservation_residual"][i] < tr)
         except (KeyError, IndexError):
             return False
 
@@ -454,8 +511,9 @@ def events_of(cfg, cap, fault, num_iter):
     if fault is not None and fault[0] in ("timings", "criteria") and fault[1] < n_done:
         # the history entry of the failing pass was appended before the exception: that pass did not complete
         n_done = fault[1] if cap["warned"] else n_done
-    ev = ["ok1" if criteria_met_at(cfg, hist, i) else "ok0" for i in range(n_done)]
-    broke = n_done > 0 and n_done - 1 > 1 and ev[-1] == "ok1"
+    br = lambda i: 0 if cfg.method == "newton" else (0 if is_update_pass(cfg, i) else 1)
+    ev = [("ok1" if criteria_met_at(cfg, hist, i) else "ok0") + f":{br(i)}" for i in range(n_done)]
+    broke = n_done > 0 and n_done - 1 > 1 and ev[-1].startswith("ok1")
     if not broke and n_done < num_iter:
         if fault is not None and fault[1] == n_done:
             ev.append(fault_token(cfg, fault[0], fault[1]))
@@ -505,7 +563,10 @@ def check_run(ctx, d, cfg, cap, fault, num_iter, label):
     ctx.cov["max_abs_colsum_D"] = max(ctx.cov.get("max_abs_colsum_D", 0.0), colsum)
     if not err <= tol:
         # input class in the signature: Anderson on/off and full vs. reduced formulation (see findings/C04.json)
-        ctx.fail(f"{sig0}:mass-balance:anderson={'on' if cfg.aa else 'off'}:{'full' if cfg.formulation == 'full' else 'reduced'}-formulation",
+        # input class in the signature: Anderson off / on / on with a numerically rank-deficient least-squares problem (the
+        # recorded finding is only the last one), and full vs. reduced formulation
+        aa_cls = "off" if not cfg.aa else ("degenerate-lstsq" if cap.get("aa_degenerate") else "on")
+        ctx.fail(f"{sig0}:mass-balance:anderson={aa_cls}:{'full' if cfg.formulation == 'full' else 'reduced'}-formulation",
                  f"returned flux violates the discrete mass balance: |D u - f|_inf = {err:.3e} > {tol:.3e} ({label})", rp)
     # (2) reported distance is the cost of exactly the returned flux
     cost = call(cap.get("cost", w.l1_dissipation), u)
@@ -544,8 +605,8 @@ def check_run(ctx, d, cfg, cap, fault, num_iter, label):
             ctx.fail(f"C04:{cfg.method}.__call__:pressure-unavailable(nan):singular-postprocessing:{cfg.mobility}",
                      f"the pressure returned by Bregman is NaN: the post-processing pressure solve failed on a returned flux with a vanishing "
                      f"face flux ({label})", rp)
-        elif cfg.method != "newton" and cfg.aa and not cap.get("pp_failed"):
-            ctx.fail(f"C04:{cfg.method}._solve:pressure-non-finite:anderson=on:{cfg.solver}",
+        elif cfg.method != "newton" and cfg.aa and cap.get("aa_degenerate") and not cap.get("pp_failed"):
+            ctx.fail(f"C04:{cfg.method}._solve:pressure-non-finite:anderson=degenerate-lstsq:{cfg.solver}",
                      f"the returned pressure has non-finite entries ({int(p.size - finite_p.size)} of {p.size}; {label})", rp)
         else:
             ctx.fail(f"C04:{cfg.method}._solve:pressure-non-finite",
@@ -556,7 +617,7 @@ def check_run(ctx, d, cfg, cap, fault, num_iter, label):
         if not pk <= 1e-10 * max(float(np.abs(p).max()), 1e-300) + 1e-300:
             ctx.fail(f"{sig0}:pressure-not-pinned", f"pressure of the reference cell is {p[k]!r}, not 0 ({label})", rp)
     # (4) honest status
-    met_last = n_done > 0 and ev[n_done - 1] == "ok1" and n_done - 1 > 1
+    met_last = n_done > 0 and ev[n_done - 1].startswith("ok1") and n_done - 1 > 1
     if converged and (faulted or cap["warned"] or not met_last):
         why = "an inner step failed" if (faulted or cap["warned"]) else "the stopping criteria were not met"
         ctx.fail(f"{sig0}:converged-but-" + ("fault" if (faulted or cap["warned"]) else "criteria-not-met"),
@@ -626,7 +687,7 @@ def explore(ctx, d, cfg, lines, impl):
         dist_tag = sol_tag if dcost else ("none" if cap["distance"] == 0 else "other")
         lines.append(f"loop {method} gen {N} {len(ev)} " + " ".join(ev))
         impl.append(f"{int(conv)} {nit if nit is not None else 'none'} {dist_tag if dist_tag is not None else 'other'} "
-                    f"{sol_tag if sol_tag is not None else 'other'} {int(bool(ev) and (ev[-1].startswith('f:') or ev[-1] == 'nan' or (ev[-1] == 'ok1' and len(ev) - 1 > 1)))}")
+                    f"{sol_tag if sol_tag is not None else 'other'} {int(bool(ev) and (ev[-1].startswith('f:') or ev[-1] == 'nan' or (ev[-1].startswith('ok1') and len(ev) - 1 > 1)))}")
         if (fault is not None or cap["warned"]) and sol_tag != n_done:
             ctx.fail(f"C04:{cfg.method}._solve:not-last-valid-iterate",
                      f"after a failure in pass {n_done} the returned solution is not the last valid iterate (matches iterate {sol_tag}; {label})", rp)
@@ -679,7 +740,8 @@ def loop_model_selfcheck(ctx, codes):
         labels = []
         for b, body in enumerate(codes[method]["bodies"]):
             labels += [f"f:{b}:{l}" for l in dict.fromkeys(l for l, _ in body)]
-        alphabet = ["ok0", "ok1"] + labels
+        oks = ["ok0", "ok1"] if method == "newton" else ["ok0:0", "ok1:1", "ok0:1", "ok1:0"]
+        alphabet = oks + labels
         for n in range(0, 4):
             for L in range(0, n + 1):
                 for ev in itertools.product(alphabet, repeat=L):
@@ -694,7 +756,7 @@ def loop_model_selfcheck(ctx, codes):
                             stopped = 1
                             break
                         cur = i + 1
-                        if i > 1 and e == "ok1":
+                        if i > 1 and e.startswith("ok1"):
                             conv, stopped = 1, 1
                             break
                     expect.append(f"{conv} {it} {cur} {cur} {stopped}")
@@ -788,6 +850,90 @@ def aux_correspondence(ctx, d):
     ctx.cov.setdefault("correspondence", {})["__call__ outputs vs WAux.callOut (stubbed _solve, dyadic flat solution)"] = {"cases": len(lines), "disagreements": bad}
 
 
+def anderson_correspondence(ctx, d):
+    """real `darsia.AndersonAcceleration` on dyadic vectors with the least-squares routine stubbed (prescribed dyadic weights)
+    against `DarsiaModel.Anderson.call`: every returned iterate must equal the model exactly (history columns, column index,
+    restart, mixing formula); plus the property-level check that an affine constraint shared by all images is kept."""
+    import scipy.linalg as sla
+
+    lines, impl = [], []
+    rng = ctx.rng
+    for trial in range(ctx.pick(8, 40)):
+        depth = [1, 2, 3][trial % 3]
+        restart = [None, 2, 3, 4][(trial // 3) % 4]
+        dim = rng.randint(2, 5)
+        ncalls = rng.randint(3, 7)
+        # images g_k with a common linear constraint: sum(g_k) = 3 (so that the returned iterates must keep it)
+        calls = []
+        for k in range(ncalls):
+            g = np.array([rng.randint(-8, 8) / 2.0 for _ in range(dim)])
+            g[-1] += 3.0 - g.sum()
+            f = np.array([rng.randint(-8, 8) / 4.0 for _ in range(dim)])
+            inner = k % restart if restart is not None else k
+            mk = min(inner, depth)
+            gamma = [rng.randint(-4, 4) / 2.0 for _ in range(mk)]
+            calls.append((g, f, gamma))
+        aa = call(d.AndersonAcceleration, dimension=None, depth=depth, restart=restart)
+        outs, seen_shapes = [], []
+        orig = sla.lstsq
+        try:
+            it = iter(calls)
+            state = {"gamma": None}
+
+            def stub(A, b, *a, **kw):
+                seen_shapes.append(tuple(np.shape(A)))
+                return (np.array(state["gamma"], dtype=float), None, None, None)
+
+            sla.lstsq = stub
+            for k, (g, f, gamma) in enumerate(calls):
+                state["gamma"] = gamma
+                r = call(aa, g.copy(), f.copy(), k) if not isinstance(aa, Raised) else aa
+                outs.append(r)
+        finally:
+            sla.lstsq = orig
+        line = f"anderson {depth} {restart if restart is not None else 'none'} {dim} {ncalls} " + " ".join(
+            " ".join(fmt(v) for v in g) + " " + " ".join(fmt(v) for v in f) + f" {len(gm)} " + " ".join(fmt(v) for v in gm) for g, f, gm in calls)
+        lines.append(" ".join(line.split()))
+        if any(isinstance(o, Raised) for o in outs):
+            impl.append(repr(next(o for o in outs if isinstance(o, Raised))))
+            continue
+        impl.append(" | ".join(" ".join(fmt(v) for v in np.asarray(o, dtype=float)) for o in outs))
+        for k, o in enumerate(outs):
+            if abs(float(np.sum(o)) - 3.0) > 1e-12:
+                ctx.fail("C04:AndersonAcceleration.__call__:not-affine",
+                         f"Anderson mixing does not keep a linear constraint shared by all images (sum = 3): call {k} returns sum {float(np.sum(o))!r} "
+                         f"(depth {depth}, restart {restart})", {"kind": "anderson", "depth": depth, "restart": restart,
+                                                                "calls": [[g.tolist(), f.tolist(), gm] for g, f, gm in calls]})
+                break
+    ctx.correspond("AndersonAcceleration.__call__ (stubbed lstsq, dyadic) vs DarsiaModel.Anderson.call", lines, impl)
+
+
+def model_selfchecks(ctx, codes):
+    """driver ops that describe the generated code / the as-found code: tied here so that they are not dead model"""
+    lines, expect = [], []
+    for m in ("newton", "bregman"):
+        c = codes[m]
+        sound = all(c[k] for k in ("restoreSol", "restoreDist", "flagOnBreak", "distInit", "iterInit", "saveIsCopy")) and bool(c["bodies"])
+        eff = {"none": "-", "writeSol": "sol", "writeDist": "dist", "criteria": "crit"}
+        if sound:  # the body-order part of `sound` is evaluated by Lean; here only for well-ordered bodies
+            def ok(b):
+                effs = [e for _, e in b]
+                if "writeSol" not in effs or "writeDist" not in effs:
+                    return False
+                last_d = max(i for i, e in enumerate(effs) if e == "writeDist")
+                return all(e != "writeSol" for e in effs[last_d + 1:])
+            sound = all(ok(b) for b in c["bodies"])
+        lines.append(f"points {m}")
+        expect.append(f"sound={int(sound)} | " + " | ".join(" ".join(f"{l}/{eff[e]}" for l, e in b) for b in c["bodies"]))
+    # the witnesses of the as-found code, through the driver (same statements as the theorems asFound_*)
+    for line, exp in (("loop newton asFound 5 1 f:0:linearSolve", "1 0 none 0 1"), ("loop bregman asFound 5 1 f:1:linearSolve", "1 0 none 0 1"),
+                      ("loop newton asFound 5 2 ok0 f:0:distance", "1 1 1 2 1"), ("loop newton asFound 0 0", "!UnboundLocalError none none 0 0"),
+                      ("loop bregman asFound 0 0", "0 0 none 0 0")):
+        lines.append(line)
+        expect.append(exp)
+    ctx.correspond("driver: generated program points / as-found witnesses", lines, expect)
+
+
 def run(ctx):
     import darsia as d
 
@@ -795,13 +941,15 @@ def run(ctx):
     codes = {"newton": extract_code(W.WassersteinDistanceNewton), "bregman": extract_code(W.WassersteinDistanceBregman)}
     ctx.write_gen("SolveLoopGen", emit(codes))
     ctx.cov["generated_tables"] = {k: {"bodies": [[f"{l}/{e}" for l, e in b] for b in v["bodies"]], "tracked": v.get("tracked"),
-                                       "flags": {f: v[f] for f in ("restoreSol", "restoreDist", "flagOnBreak", "distInit", "iterInit")},
+                                       "flags": {f: v[f] for f in ("restoreSol", "restoreDist", "flagOnBreak", "distInit", "iterInit", "saveIsCopy")},
                                        "why_not_sound": v["why"]} for k, v in codes.items()}
     ctx.prove("C04")
     ctx.cov["solver_runs"] = 0
     ctx.cov["events_seen"] = {}
     loop_model_selfcheck(ctx, codes)
     aux_correspondence(ctx, d)
+    anderson_correspondence(ctx, d)
+    model_selfchecks(ctx, codes)
     lines, impl = [], []
     cfgs = configs(ctx)
     for cfg in cfgs:
@@ -814,7 +962,9 @@ def run(ctx):
                        "the thorough tier) for both injection points; distinct = (configuration, fault)")
     ctx.assumptions += [
         "1^T D = 0 for the FV divergence (C06/C07); measured per run as max |column sum| (recorded)",
-        "exceptions are injected at the inner linear solve and at the Anderson mixing; the loop model covers any raise point",
+        "exceptions are injected at nine program points (jacobian, regularisation update, linear solve, solver setup, shrink, Anderson, "
+        "l1_dissipation, timings, stopping criteria); the loop model covers a raise at any statement",
+        "scipy.linalg.lstsq is replaced by a stub only inside the Anderson correspondence (restored afterwards)",
         "the stopping rule used by the oracle is the documented one (relative residual / increment and distance increment below tol)",
     ]
 
